@@ -125,7 +125,7 @@ Proof.
     { rewrite <- Et in Hb1, Hb2. destruct (unindexed_type (stype a)).
       - rewrite (resolve_pair_none _ _ _ Ha1 Hb1), (resolve_pair_none _ _ _ Ha2 Hb2). eauto.
       - destruct (resolve_pair_some Z.min _ _ Ha1 Hb1) as [z1 ->]. destruct (resolve_pair_some Z.max _ _ Ha2 Hb2) as [z2 ->]. eauto. }
-    destruct L as (lg & ld & -> & ->). cbn [obind] in H.
+    destruct L as (lg & ld & L1 & L2). rewrite L1, L2 in H. cbn [obind] in H.
     destruct (resolve_strings (sequation a) (sequation b)) eqn:E3; cbn [obind] in H.
     + destruct (resolve_strings (scode a) (scode b)) eqn:E4; cbn [obind] in H; [discriminate|].
       inversion H; subst. destruct (RS _ _ _ E4) as (-> & u & v & Hu & Hv & Huv). right. split; [reflexivity|]. right. eauto.
@@ -385,11 +385,11 @@ Proof.
 Qed.
 Lemma dict_keys_set {V} k (v : V) d : dict_keys (dict_set k v d) = add_new (dict_keys d) k.
 Proof.
-  unfold dict_keys, add_new. induction d as [|[k' v'] d IH]; cbn.
+  unfold dict_keys, add_new, mem_string. induction d as [|[k' v'] d IH]; cbn.
   - reflexivity.
   - destruct (String.eqb k k') eqn:E; cbn.
     + reflexivity.
-    + rewrite IH. destruct (mem_string k (map fst d)); reflexivity.
+    + rewrite IH. destruct (existsb (String.eqb k) (map fst d)); reflexivity.
 Qed.
 
 Lemma nodup_snoc {A} (l : list A) x : NoDup l -> ~ In x l -> NoDup (l ++ [x]).
@@ -441,15 +441,15 @@ Definition DInv (d : dict) (G : string -> aterm -> Prop) : Prop :=
 
 Lemma DInv_ext d (G G' : string -> aterm -> Prop) : (forall k a, G k a <-> G' k a) -> DInv d G -> DInv d G'.
 Proof.
-  intros E (N & K & V). repeat split.
-  - exact N.
+  intros E (N & K & V). split; [exact N|]. split.
   - intros k a H. eapply K, E, H.
-  - apply V, H.
-  - eapply Pre_ext; [apply E|]. apply V, H.
-  - apply V, H.
+  - intros k v H. destruct (V k v H) as (A & B & C). split; [exact A|]. split; [|exact C].
+    eapply Pre_ext; [|exact B]. intros a. apply E.
 Qed.
 Lemma DInv_nil : DInv [] (fun _ _ => False).
-Proof. repeat split; try constructor; try contradiction; cbn in *; discriminate. Qed.
+Proof.
+  split; [constructor|]. split; [intros k a []|]. intros k v H. discriminate H.
+Qed.
 
 Definition clash (a b : ptype) : Prop := a <> b /\ (is_variable_type a && is_variable_type b = false).
 Definition two_texts (a b : aterm) : Prop :=
@@ -464,6 +464,22 @@ Proof.
   - rewrite Va, Vb in V. discriminate.
 Qed.
 
+(* storing a summary of (G x ∪ P) under x *)
+Lemma DInv_set d G x c (P : aterm -> Prop) :
+  DInv d G -> sname c = Some x -> Pre c (fun a => G x a \/ P a) -> Norm c ->
+  DInv (dict_set x c d) (fun k a => G k a \/ (k = x /\ P a)).
+Proof.
+  intros (N & K & V) Hn HP HN. split; [|split].
+  - rewrite dict_keys_set. apply add_new_nodup, N.
+  - intros k a [H|[-> H]]; rewrite dict_keys_set; apply add_new_in; [left; eapply K; eauto|right; reflexivity].
+  - intros k v H. destruct (string_dec k x) as [->|Nk].
+    + rewrite dict_get_set_eq in H. inversion H; subst v. split; [exact Hn|]. split; [|exact HN].
+      eapply Pre_ext; [|exact HP]. intros a. cbn. split; [intros [Q|Q]; auto|intros [Q|[_ Q]]; auto].
+    + rewrite dict_get_set_neq in H by congruence. destruct (V k v H) as (A & B & C).
+      split; [exact A|]. split; [|exact C].
+      eapply Pre_ext; [|exact B]. intros a. split; [auto|intros [Q|[Q _]]; [exact Q|congruence]].
+Qed.
+
 Lemma dict_combine_step x s (P : aterm -> Prop) d G :
   DInv d G -> sname s = Some x -> Pre s P ->
   match dict_combine x s d with
@@ -473,59 +489,33 @@ Lemma dict_combine_step x s (P : aterm -> Prop) d G :
     (e = ParserError /\ exists a b, G x a /\ P b /\ two_texts a b)
   end.
 Proof.
-  intros (N & K & V) Hn HP. unfold dict_combine.
+  intros HD Hn HP. pose proof HD as (N & K & V). unfold dict_combine.
   destruct (dict_get x d) as [old|] eqn:Eg.
   - destruct (V x old Eg) as (No & Po & Nmo).
     destruct (combine old s) as [c|e] eqn:Ec.
-    + destruct (combine_pre old s c _ _ Po HP Ec) as [Pc Nc]. split.
-      * repeat split.
-        -- rewrite dict_keys_set. apply add_new_nodup, N.
-        -- intros k a [H|[-> H]]; rewrite dict_keys_set; apply add_new_in; [left; eapply K; eauto|right; reflexivity].
-        -- destruct (string_dec k x) as [->|Nk].
-           ++ rewrite dict_get_set_eq in H. inversion H; subst. congruence.
-           ++ rewrite dict_get_set_neq in H by congruence. apply V, H.
-        -- destruct (string_dec k x) as [->|Nk].
-           ++ rewrite dict_get_set_eq in H. inversion H; subst.
-              eapply Pre_ext; [|exact Pc]. intros a. cbn. split; intros [Q|Q]; auto. destruct Q; auto.
-           ++ rewrite dict_get_set_neq in H by congruence.
-              eapply Pre_ext; [|apply V, H]. intros a. split; [auto|intros [Q|[Q _]]; [exact Q|congruence]].
-        -- destruct (string_dec k x) as [->|Nk].
-           ++ rewrite dict_get_set_eq in H. inversion H; subst.
-              eapply combine_norm_l; [apply Po|apply HP|exact Nmo|exact Ec].
-           ++ rewrite dict_get_set_neq in H by congruence. apply V, H.
-      * apply dict_keys_set.
+    + destruct (combine_pre old s c _ _ Po HP Ec) as [Pc Nc]. split; [|apply dict_keys_set].
+      apply DInv_set; [exact HD|congruence|exact Pc|].
+      eapply combine_norm_l; [apply Po|apply HP|exact Nmo|exact Ec].
     + destruct Po as (Wo & To2 & (a1 & Sa1 & To3) & Lo & Eo2 & Eo3).
       destruct HP as (Ws & Ts2 & (b1 & Sb1 & Ts3) & Ls & Es2 & Es3).
       destruct (combine_raise_cases old s e Wo Ws Ec) as [(-> & Nt & Vt)|(-> & [(u & w & Hu & Hw & Nuw)|(u & w & Hu & Hw & Nuw)])].
-      * left. split; [reflexivity|]. exists a1, b1. repeat split; auto; rewrite To3, Ts3; auto.
+      * left. split; [reflexivity|]. exists a1, b1. split; [exact Sa1|]. split; [exact Sb1|].
+        unfold clash. rewrite To3, Ts3. split; assumption.
       * right. split; [reflexivity|].
         destruct Eo3 as [(F & _)|(a & Sa & Ta & Qa1 & Qa2)]; [congruence|].
         destruct Es3 as [(F & _)|(b & Sb & Tb & Qb1 & Qb2)]; [congruence|].
-        exists a, b. repeat split; auto. left. congruence.
+        exists a, b. split; [exact Sa|]. split; [exact Sb|]. split; [exact Ta|]. split; [exact Tb|]. left. congruence.
       * right. split; [reflexivity|].
         destruct Eo3 as [(_ & F)|(a & Sa & Ta & Qa1 & Qa2)]; [congruence|].
         destruct Es3 as [(_ & F)|(b & Sb & Tb & Qb1 & Qb2)]; [congruence|].
-        exists a, b. repeat split; auto. right. congruence.
+        exists a, b. split; [exact Sa|]. split; [exact Sb|]. split; [exact Ta|]. split; [exact Tb|]. right. congruence.
   - assert (Gx : forall a, ~ G x a).
     { intros a F. apply K in F. apply dict_get_none_keys in Eg. auto. }
     destruct (combine s s) as [c|e] eqn:Ec.
-    + destruct (combine_pre s s c _ _ HP HP Ec) as [Pc Nc]. split.
-      * repeat split.
-        -- rewrite dict_keys_set. apply add_new_nodup, N.
-        -- intros k a [H|[-> H]]; rewrite dict_keys_set; apply add_new_in; [left; eapply K; eauto|right; reflexivity].
-        -- destruct (string_dec k x) as [->|Nk].
-           ++ rewrite dict_get_set_eq in H. inversion H; subst. congruence.
-           ++ rewrite dict_get_set_neq in H by congruence. apply V, H.
-        -- destruct (string_dec k x) as [->|Nk].
-           ++ rewrite dict_get_set_eq in H. inversion H; subst.
-              eapply Pre_ext; [|exact Pc]. intros a. cbn. split; [intros [Q|Q]; auto|intros [Q|[_ Q]]; [exfalso; eapply Gx; eauto|auto]].
-           ++ rewrite dict_get_set_neq in H by congruence.
-              eapply Pre_ext; [|apply V, H]. intros a. split; [auto|intros [Q|[Q _]]; [exact Q|congruence]].
-        -- destruct (string_dec k x) as [->|Nk].
-           ++ rewrite dict_get_set_eq in H. inversion H; subst.
-              eapply combine_norm_self; [apply HP|exact Ec].
-           ++ rewrite dict_get_set_neq in H by congruence. apply V, H.
-      * apply dict_keys_set.
+    + destruct (combine_pre s s c _ _ HP HP Ec) as [Pc Nc]. split; [|apply dict_keys_set].
+      apply DInv_set; [exact HD|congruence| |].
+      * eapply Pre_ext; [|exact Pc]. intros a. cbn. split; [intros [Q|Q]; auto|intros [Q|Q]; [exfalso; eapply Gx; eauto|auto]].
+      * eapply combine_norm_self; [apply HP|exact Ec].
     + exfalso. destruct HP as (Ws & _).
       destruct (combine_raise_cases s s e Ws Ws Ec) as [(_ & Nt & _)|(_ & [(u & w & Hu & Hw & Nuw)|(u & w & Hu & Hw & Nuw)])]; congruence.
 Qed.
